@@ -21,9 +21,6 @@ open TF.Gen TF.Merkle
 
 variable {D : Type} [DecidableEq D] (H : D → D → D)
 
-/-- a small non-injective "hash" on `Nat` for the non-vacuity examples -/
-def Hx (a b : Nat) : Nat := (3 * a + 5 * b + 1) % 1000003
-
 /-- **termination for every cut-off** (0, 1, …, larger than the tree): the loop fuel `n + 1` of the model is never
     exhausted, for every list of digests -/
 theorem from_digests_terminates (filler : D) (cutoff : Nat) (ds : List D) :
